@@ -824,3 +824,31 @@ def r09_16_year_checked_before_it_is_looked_up(ctx: Ctx) -> RuleResult:
                 c, h, leaks = bad
                 rr.fail(f.qual, f"`{unparse(c)[:70]}` is evaluated before `{v}` is checked against the calendar's year range, and {h.qual} looks the year up in a per-year table (`{leaks[0]}`): a result two or more years outside the calendar surfaces as KeyError / IndexError instead of OverflowError", ctx.loc(f, c))
     return rr
+
+
+# ------------------------------------------------------------------------------------------- R09.17 computed results overflow, arguments are invalid
+
+
+@rule("C09")
+def r09_17_computed_values_overflow(ctx: Ctx) -> RuleResult:
+    """Date arithmetic signals a RESULT outside the calendar with OverflowError; ValueError is for invalid ARGUMENTS.  Callers rely
+    on the distinction (the text layer turns the OverflowError of `24:00 on the last day` into a failed ParseResult and lets
+    everything else through).  In the period fields and the calculators' add / between functions, the argument-range helper
+    (`_check_argument_range`, which raises ValueError) must therefore never be applied to a local that the function has computed
+    (assigned or stepped after entry): that is a result, and its check raises OverflowError."""
+    rr = RuleResult("R09.17", "date arithmetic never range-checks a computed value with the argument checker (ValueError): results outside the calendar raise OverflowError", min_instances=10)
+    M = ctx.M
+    for f in sorted(set(M.func_of_node.values()), key=lambda x: x.qual):
+        if isinstance(f.node, ast.Lambda) or not (f.mod.rel.startswith("pyoda_time/fields/") or (f.mod.rel.startswith("pyoda_time/calendars/") and f.name.lstrip("_").startswith(("add_", "months_between", "years_between", "set_year")))):
+            continue
+        rr.inst()
+        computed = {t.id for n in own_nodes(f.node) if isinstance(n, (ast.Assign, ast.AugAssign, ast.AnnAssign)) for t in (n.targets if isinstance(n, ast.Assign) else [n.target]) if isinstance(t, ast.Name)}
+        bad = None
+        for n in own_nodes(f.node):
+            if isinstance(n, ast.Call) and unparse(n.func).endswith("_check_argument_range") and len(n.args) >= 2 and isinstance(n.args[1], ast.Name) and n.args[1].id in computed:
+                bad = n
+        if bad is None:
+            rr.ok()
+        else:
+            rr.fail(f.qual, f"`{unparse(bad)[:80]}` applies the argument checker (ValueError) to the computed `{bad.args[1].id}`: a result outside the calendar must raise OverflowError, which callers catch", ctx.loc(f, bad))
+    return rr
